@@ -10,9 +10,9 @@ path of names from the root.  Core-only imports.
 -/
 import Uft.Model.Json
 namespace Uft.Graph
-open Uft.Json (Byte dec)
+open Uft.Json (dec)
 
-abbrev Name := List Byte
+abbrev Name := List Nat
 abbrev Path := List Name
 
 mutual
@@ -210,15 +210,21 @@ def W : Nat := 18446744073709551616
 def sampleOf (st : Nat) (n : Node) : Nat :=
   if n.calls ≠ 0 ∧ st ≠ 0 then (((n.time : Int) - n.child) % (W : Int)).toNat / st else n.calls
 
-def joinPath : Path → List Byte
+def joinPath : Path → List Nat
   | [] => []
   | x :: r => x ++ [59] ++ joinPath r
 
-/-- "a;b;c 12\n": every name followed by ';', the last ';' overwritten with a blank -/
-def flameLine (p : Path) (s : Nat) : List Byte := (joinPath p).dropLast ++ [32] ++ dec s ++ [10]
+/-- "a;b;c 12\n": every name followed by ';', the last ';' overwritten with a blank, then
+    `snprintf(ptr, len, "%lu", sample)` where `len` is still the length of "a;b;c;" — the
+    number is cut to `len - 1` digits.  `fixed`: the size argument is the room that is left
+    (the buffer has 32 spare bytes), so the number is complete. -/
+def flameLine (fixed : Bool) (p : Path) (s : Nat) : List Nat :=
+  (joinPath p).dropLast ++ [32] ++
+  (if fixed then dec s else (dec s).take ((joinPath p).length - 1)) ++ [10]
 
-def flameText (st : Nat) (root : Node) : List Byte :=
-  (walk root).flatMap fun (_, p, n) => if sampleOf st n = 0 then [] else flameLine p (sampleOf st n)
+def flameText (fixed : Bool) (st : Nat) (root : Node) : List Nat :=
+  (walk root).flatMap fun (_, p, n) =>
+    if sampleOf st n = 0 then [] else flameLine fixed p (sampleOf st n)
 
 /-- `for (s = 1000; s * 1000000 < total; s *= 10) if (s == 1000000000) break;` -/
 def autoSampleFrom : Nat → Nat → Nat → Nat
@@ -229,12 +235,12 @@ def autoSampleFrom : Nat → Nat → Nat → Nat
 def autoSample (total : Nat) : Nat := autoSampleFrom 8 1000 total
 
 open Uft.Json in
-def graphvizLine (parent n : Node) : List Byte :=
+def graphvizLine (parent n : Node) : List Nat :=
   b!"    " ++ [34] ++ parent.name ++ b!"\" -> " ++ [34] ++ n.name ++ [34] ++
   b!" [xlabel = \"" ++ dec n.calls ++ b!"\"]\n"
 
 open Uft.Json in
-def graphvizText (version : List Byte) (cmdline : Option (List Byte)) (root : Node) : List Byte :=
+def graphvizText (version : List Nat) (cmdline : Option (List Nat)) (root : Node) : List Nat :=
   b!"# version\":\"uftrace " ++ version ++ b!"\"\n" ++
   (match cmdline with
    | some c => b!"# command_line \"" ++ c ++ b!"\"\n"
@@ -244,12 +250,12 @@ def graphvizText (version : List Byte) (cmdline : Option (List Byte)) (root : No
   b!"}\n"
 
 open Uft.Json in
-def mermaidLine (parent : Node) (p : Path) (n : Node) : List Byte :=
+def mermaidLine (parent : Node) (p : Path) (n : Node) : List Nat :=
   b!"  " ++ dec (p.length - 1) ++ [95] ++ dec parent.id ++ b!"[\"" ++ parent.name ++ b!"\"] -->|" ++
   dec n.calls ++ b!"| " ++ dec p.length ++ [95] ++ dec n.id ++ b!"[\"" ++ n.name ++ b!"\"];\n"
 
 /-- the lines between "flowchart TB" and "</div>" -/
-def mermaidEdges (root : Node) : List Byte :=
+def mermaidEdges (root : Node) : List Nat :=
   (walk root).flatMap fun (par, p, n) => mermaidLine par p n
 
 /-- `uftrace graph` (full graph): root time is the sum of its children's -/
